@@ -194,7 +194,10 @@ def join(tokens, rng=None, decorate=0.0):
     for i, t in enumerate(tokens):
         if i:
             if rng is not None and rng.random() < decorate:
-                out.append(rng.choice(WS_ALPHABET))
+                w = rng.choice(WS_ALPHABET)
+                if tokens[i - 1].endswith('/') and w.startswith('/'):
+                    w = ' ' + w          # `/` followed by `/*` or `//` would start a comment
+                out.append(w)
             else:
                 out.append(' ')
         out.append(t)
